@@ -787,6 +787,13 @@ func (e *kvElection) startCallback(ticket uint64) {
 	}
 }
 
+// passCallbackTurn gives up a ticket whose callback is not going to run.
+func (e *kvElection) passCallbackTurn(ticket uint64, used *bool) {
+	if !*used {
+		go e.startCallback(ticket)
+	}
+}
+
 // callbackTurn returns nil when it is the ticket's turn (and counts it as
 // started), otherwise a channel that is closed when the turn moves on.
 func (e *kvElection) callbackTurn(ticket uint64) chan struct{} {
@@ -907,9 +914,18 @@ func (e *kvElection) StopWithContext(ctx context.Context, opts StopOptions) erro
 		}
 	}
 
+	// OnDemote takes its turn in the order of the leadership changes, like
+	// every other callback: a run that Start begins while this call is still
+	// busy (deleting the key, say) must not be promoted before this demotion
+	// has been reported. A call that fails does not report it and passes.
+	var demoteTicket uint64
+	demoteReported := false
 	if wasLeader {
 		e.recordLeaderDuration()
 		e.leaderStartTime.Store(time.Time{})
+		demoteTicket = e.cbTickets
+		e.cbTickets++
+		defer e.passCallbackTurn(demoteTicket, &demoteReported)
 	}
 
 	if e.cancel != nil {
@@ -1055,7 +1071,9 @@ func (e *kvElection) StopWithContext(ctx context.Context, opts StopOptions) erro
 			if opts.WaitForDemote {
 				// Wait for callback to complete
 				done := make(chan struct{})
+				demoteReported = true
 				go func() {
+					e.startCallback(demoteTicket)
 					onDemote()
 					close(done)
 				}()
@@ -1074,7 +1092,11 @@ func (e *kvElection) StopWithContext(ctx context.Context, opts StopOptions) erro
 					return ctx.Err()
 				}
 			} else {
-				go onDemote()
+				demoteReported = true
+				go func() {
+					e.startCallback(demoteTicket)
+					onDemote()
+				}()
 			}
 		}
 	}
